@@ -237,6 +237,36 @@ func VerifC17DurationHistogram() {
 	verifrt.Reach("c17-duration-histogram")
 }
 
+// VerifC17DurationSeconds: the same statement as VerifC17DurationHistogram on bounds and
+// samples within (-4s, 4s), with integer divisions by a constant decided by a case split
+// on the quotient (verifrt.SplitConstDivision): any conversion of the replayed bound that
+// is not bit-identical to the registered one (for instance whole seconds plus a fraction,
+// two roundings instead of one) is then within the solver's reach.
+func VerifC17DurationSeconds() {
+	verifrt.SplitConstDivision(5)
+	reg := &vRegisterer{real: prom.NewRegistry()}
+	rep := NewReporter(Options{Registerer: reg, OnRegisterError: func(err error) {
+		verifrt.Assert("c17.dsec.no-registration-error", false)
+	}}).(*reporter)
+	scope, closer := tally.NewRootScope(tally.ScopeOptions{CachedReporter: rep, Separator: "_", OmitCardinalityMetrics: true}, 0)
+	b1, b2 := verifrt.Int64("bound"), verifrt.Int64("bound")
+	const lim = int64(4 * time.Second)
+	verifrt.Assume(verifrt.And(verifrt.And(b1 > -lim, b2 < lim), b1 < b2))
+	x := verifrt.Int64("sample")
+	verifrt.Assume(verifrt.And(x > -lim, x < lim))
+	spec := tally.DurationBuckets{time.Duration(b1), time.Duration(b2)}
+	h := scope.Histogram("lat", spec)
+	h.RecordDuration(time.Duration(x))
+	closer.Close()
+	ph := rep.timers[canonicalMetricID("lat", nil)].histogram.With(nil)
+	ub := verifrt.IteInt64(x <= b1, b1, verifrt.IteInt64(x <= b2, b2, int64(^uint64(0)>>1)))
+	want := vZero + float64(time.Duration(ub))/float64(time.Second)
+	verifrt.Assert("c17.dsec.total-count", vObsCount(ph) == 1)
+	verifrt.Assert("c17.dsec.observed-the-registered-bound-of-the-samples-bucket",
+		verifrt.Float64bits(vObsSum(ph)) == verifrt.Float64bits(want))
+	verifrt.Reach("c17-duration-seconds")
+}
+
 // VerifC17ConcurrentFirstUse: two goroutines make the first use of one name and tag-key set
 // with different tag values; every schedule with at most 2 preemptions.  Neither may see a
 // registration error, and both series must carry their own value.
